@@ -446,57 +446,4 @@ theorem selectRoutingTree_meaning :
       | none => r.fin == .ret 0
       | some t => r.fin == .ret 1 && t == (if r.acts.getLast? == some 1 then vb!"v1" else ver)) = true := by decide
 
-/-! ### `serveVersionedRequest` / `serveVersionedHandlers`: 410 without running a handler -/
-
-def allBits : Nat → List (List Bool)
-  | 0 => [[]]
-  | n + 1 => (allBits n).flatMap fun l => [false :: l, true :: l]
-
-/-- position of a text in a table (`= length` when it is missing) -/
-def at' (tbl : List String) (t : String) : Nat := tbl.findIdx (· == t)
-
-def bitVal (bits : List Bool) : Val := pure fun a => bits.getD a false
-
-/-- **a version past its sunset date answers 410 without running a handler; otherwise the handlers run and no 410 is
-    written** — `serveVersionedHandlers` (static version table): over ALL valuations of its atoms, `SetLifecycleHeaders`
-    is consulted before the chain, its `true` leads to `WriteHeader(410)` and never to `Next()`, its `false` (or no
-    engine) to `Next()` and never to the 410 -/
-theorem serveVersionedHandlers_gone_without_handler :
-    let atoms := Gen.Version.serveVersionedHandlers_atoms
-    let effs := Gen.Version.serveVersionedHandlers_effects
-    let eng := at' atoms "recv.versionEngine != nil"
-    let sun := at' atoms "recv.versionEngine.SetLifecycleHeaders(p0, p4, p3)"
-    let gone := at' effs "p0.WriteHeader(http.StatusGone)"
-    let next := at' effs "getContextFromGlobalPool().Next()"
-    eng < atoms.length ∧ sun < atoms.length ∧ gone < effs.length ∧ next < effs.length ∧
-    (allBits atoms.length).all (fun bits =>
-      let r := run noIters Gen.Version.serveVersionedHandlers (bitVal bits)
-      if bits.getD eng false && bits.getD sun false then r.acts.contains gone && !r.acts.contains next
-      else r.acts.contains next && !r.acts.contains gone) = true := by decide
-
-/-- the same for `serveVersionedRequest` (version tree): a static-table hit is handed to `serveVersionedHandlers`; no
-    route → the 404/405 path, no handler, no 410; route found → 410 without `Next()` exactly when `SetLifecycleHeaders`
-    says so, else `Next()` -/
-theorem serveVersionedRequest_gone_without_handler :
-    let atoms := Gen.Version.serveVersionedRequest_atoms
-    let effs := Gen.Version.serveVersionedRequest_effects
-    let c1 := at' atoms "recv.versionCache.Load(p4 + \":\" + p1.Method)#1"
-    let c2 := at' atoms "recv.versionCache.Load(p4 + \":\" + p1.Method)#0.(*CompiledRouteTable)#1 && recv.versionCache.Load(p4 + \":\" + p1.Method)#0.(*CompiledRouteTable)#0 != nil"
-    let c3 := at' atoms "recv.versionCache.Load(p4 + \":\" + p1.Method)#0.(*CompiledRouteTable)#0.getRouteWithPath(p3)#0 != nil"
-    let nf := at' atoms "p2.getRoute(p3, getContextFromGlobalPool())#0 == nil"
-    let eng := at' atoms "recv.versionEngine != nil"
-    let sun := at' atoms "recv.versionEngine.SetLifecycleHeaders(p0, p4, p2.getRoute(p3, getContextFromGlobalPool())#1)"
-    let gone := at' effs "p0.WriteHeader(http.StatusGone)"
-    let next := at' effs "getContextFromGlobalPool().Next()"
-    let notFound := at' effs "recv.handleNotFoundWithObs(p0, p1, p5)"
-    let static := at' effs "recv.serveVersionedHandlers(p0, p1, recv.versionCache.Load(p4 + \":\" + p1.Method)#0.(*CompiledRouteTable)#0.getRouteWithPath(p3)#0, recv.versionCache.Load(p4 + \":\" + p1.Method)#0.(*CompiledRouteTable)#0.getRouteWithPath(p3)#1, p4, p5)"
-    [c1, c2, c3, nf, eng, sun].all (· < atoms.length) ∧ [gone, next, notFound, static].all (· < effs.length) ∧
-    (allBits atoms.length).all (fun bits =>
-      let b (i : Nat) := bits.getD i false
-      let r := run noIters Gen.Version.serveVersionedRequest (bitVal bits)
-      if b c1 && b c2 && b c3 then r.acts == [static]
-      else if b nf then r.acts.contains notFound && !r.acts.contains next && !r.acts.contains gone
-      else if b eng && b sun then r.acts.contains gone && !r.acts.contains next && !r.acts.contains notFound
-      else r.acts.contains next && !r.acts.contains gone && !r.acts.contains notFound) = true := by decide
-
 end Rivaas.Tie.C13Version
